@@ -73,6 +73,45 @@ def g_set(rng, depth=2, twins=False, elem=None):
     return ["S", [elem(rng) for _ in range(n)]]
 
 
+def g_record(rng):
+    ks = rng.sample(["a", "b", "key", "mtype", "value", "x y"], rng.randint(2, 4))
+    return ["F", [[["s", k], g_small(rng) if rng.random() < 0.7 else g_str(rng)] for k in ks]]
+
+
+def g_bigmembers(rng, twins=False):
+    """more than 8 members (the immutable.Map array-node -> bitmap-node threshold): records and sets that will also
+    be offered in another construction order, full 32-bit hash collisions, shared low hash bits"""
+    ms = [g_record(rng) for _ in range(rng.randint(2, 4))] + [["S", [g_small(rng) for _ in range(rng.randint(2, 4))]] for _ in range(2)]
+    ms += V.collision_members(rng, 5, 9)
+    if not twins:
+        ms = [m for m in ms if not S.has_seq_function(m) and "d" not in json.dumps(m)]
+    seen, out = set(), []
+    for m in ms:
+        k = V.sem(m)
+        if k not in seen:
+            seen.add(k); out.append(m)
+    while len(out) < 9:
+        x = ["n", rng.randint(100, 100000)]
+        if V.sem(x) not in seen:
+            seen.add(V.sem(x)); out.append(x)
+    rng.shuffle(out)
+    return out
+
+
+def g_bigset(rng, twins=False):
+    ms = g_bigmembers(rng, twins)
+    # some members inserted a second time, built in another order
+    extra = [V.variant(rng, m, False, False) for m in rng.sample(ms, rng.randint(0, 3))]
+    out = ms + extra
+    rng.shuffle(out)
+    return ["S", out]
+
+
+def g_bigfun(rng, twins=False):
+    ks = g_bigmembers(rng, twins)
+    return ["F", [[k, g_small(rng) if rng.random() < 0.6 else g_record(rng)] for k in ks]]
+
+
 def g_intset(rng):
     return ["S", [g_small(rng) for _ in range(rng.randint(0, 5))]]
 
@@ -113,6 +152,12 @@ def g_other_kind(rng, v):
             return w
     return ["d"]
 
+
+POW_BASES = [0, 1, -1, 2, -2, 3, -3, 4, 7, 10, 16, 46340, 46341, -46341, 2**15, 2**16, 65535, 2**31 - 1, -2**31, -2**31 + 1]
+POW_EXPONENTS = [0, 1, 2, 3, 15, 16, 29, 30, 31, 32, 33, 53, 54, 61, 62, 63, 64, 65, 66, 127, 128, 255, 256, 1000, 65536, 2**31 - 2, 2**31 - 1, -1, -2**31]
+MUL_OPERANDS = [0, 1, -1, 2, -2, 3, 46340, 46341, -46341, 2**15, -2**15, 2**16, -2**16, 65535, 65537, 2**30, -2**30, 2**31 - 1, -2**31, -2**31 + 1, 715827883]
+ADD_OPERANDS = [0, 1, -1, 2, -2, 7, 2**30, -2**30, 2**31 - 2, 2**31 - 1, -2**31, -2**31 + 1]
+RANGE_ENDS = [V.INT_MIN, V.INT_MIN + 1, V.INT_MIN + 2, -1, 0, 1, V.INT_MAX - 2, V.INT_MAX - 1, V.INT_MAX]
 
 PREDS1 = [["true"], ["false"], ["isnum"], ["gt", ["n", 0]], ["gt", ["n", 2]], ["eq", ["n", 1]], ["neq", ["n", 1]], ["in", ["S", [["n", 1], ["n", 2], ["s", "a"]]]], ["asbool"]]
 PREDS2 = [["true"], ["false"], ["lt2"], ["eq2"], ["isnum"]]
@@ -156,7 +201,10 @@ def sig(rng, op, twins):
             elif op == "Minus":
                 x = rng.choice([k, edge // 2, -1, 0]); y = x - edge
             elif op == "Times":
-                y = rng.choice([1, -1, 2, -2, 3, 46341, 65536, -65536, 46340]); x = edge // y + rng.choice([0, 0, 1, -1])
+                if rng.random() < 0.5:
+                    x, y = rng.choice(MUL_OPERANDS), rng.choice(MUL_OPERANDS)
+                else:
+                    y = rng.choice([1, -1, 2, -2, 3, 46341, 65536, -65536, 46340]); x = edge // y + rng.choice([0, 0, 1, -1])
             elif op == "Div":
                 x = rng.choice([V.INT_MIN, V.INT_MAX, V.INT_MIN + 1]); y = rng.choice([-1, 1, 2, -2, V.INT_MIN, V.INT_MAX])
             elif op == "Mod":
@@ -167,10 +215,22 @@ def sig(rng, op, twins):
             return [["n", clamp(x)], ["n", clamp(y)]]
         return [I(), I()]
     if op == "Pow":
-        return [rng.choice([I(), g_small(rng)]), rng.choice([g_small(rng), ["n", rng.randint(0, 33)], I()])]
+        if rng.random() < 0.6:
+            # boundary grid: every base of interest against every exponent of interest
+            return [["n", rng.choice(POW_BASES)], ["n", rng.choice(POW_EXPONENTS)]]
+        return [rng.choice([I(), g_small(rng)]), rng.choice([g_small(rng), ["n", rng.randint(0, 70)], I()])]
     if op == "Neg":
         return [I()]
     if op == "DotDot":
+        if rng.random() < 0.25:
+            # both ends at the int32 boundary / empty ranges between extreme ends (never a wide enumeration)
+            a = rng.choice(RANGE_ENDS)
+            b = rng.choice([a - 2, a - 1, a, a + 1, a + 2, a + 3, V.INT_MIN, V.INT_MIN + 1] if a > 100 else [a - 2, a - 1, a, a + 1, a + 2, a + 3])
+            clamp = lambda z: max(V.INT_MIN, min(V.INT_MAX, z))
+            a, b = clamp(a), clamp(b)
+            if b - a > 5000:
+                a, b = b, a
+            return [["n", a], ["n", b]]
         r = rng.random()
         if r < 0.6:
             a = rng.randint(-5, 5); return [["n", a], ["n", a + rng.randint(-2, 8)]]
@@ -182,6 +242,30 @@ def sig(rng, op, twins):
             a = ["n", max(V.INT_MIN, min(V.INT_MAX, b[1] + rng.choice([-2000, -5, -1, 0, 1, 3, 2000])))]
             return [a, b] if rng.random() < 0.7 else [b, a]
         return [g_small(rng), g_small(rng)]
+    if op in ("In", "NotIn") and rng.random() < 0.3:
+        s = g_bigset(rng, twins)
+        r = rng.random()
+        x = V.variant(rng, rng.choice(s[1]), False, False) if r < 0.6 else (V.collider(rng.choice(s[1])) or A(1)) if r < 0.8 else V.near_miss(rng, rng.choice(s[1]))
+        return [x, s]
+    if op in ("Cardinality", "IsFiniteSet", "SUBSET") and rng.random() < 0.3:
+        s = g_bigset(rng, twins)
+        return [s if op != "SUBSET" else ["S", s[1][:4]]]
+    if op in ("Intersect", "Union", "SubsetEq", "SetMinus") and rng.random() < 0.25:
+        s = g_bigset(rng, twins)
+        t = ["S", [V.variant(rng, x, False, False) for x in s[1] if rng.random() < 0.6] + [V.collider(x) for x in s[1][:3] if V.collider(x) is not None]]
+        rng.shuffle(t[1])
+        return [s, t] if rng.random() < 0.5 else [t, s]
+    if op in ("Apply", "Domain") and rng.random() < 0.3:
+        f = g_bigfun(rng, twins)
+        if op == "Domain":
+            return [f]
+        r = rng.random()
+        k = rng.choice(f[1])[0]
+        return [f, V.variant(rng, k, False, False) if r < 0.7 else (V.collider(k) or A(1))]
+    if op == "AtAt" and rng.random() < 0.25:
+        f, g = g_bigfun(rng, twins), g_bigfun(rng, twins)
+        g[1] += [[V.variant(rng, k, False, False), g_small(rng)] for k, _ in f[1][:4]]
+        return [f, g] if rng.random() < 0.5 else [g, f]
     if op in ("In", "NotIn"):
         s = st()
         if s[1] and rng.random() < 0.6:
@@ -320,6 +404,31 @@ def gen_case(rng, op, twins=False):
     return c
 
 
+def boundary_grids():
+    """deterministic, exhaustive over the operands of interest (a defect that needs one particular pair, such as a
+    fast path for base 2 with exponent >= 63, must not depend on the luck of the draw)"""
+    out = []
+    for b in POW_BASES:
+        for e in POW_EXPONENTS:
+            out.append({"op": "Pow", "args": [["n", b], ["n", e]], "kind": "grid"})
+    for op in ("Times", "Plus", "Minus", "Div", "Mod"):
+        operands = MUL_OPERANDS if op == "Times" else ADD_OPERANDS
+        for x in operands:
+            for y in operands:
+                out.append({"op": op, "args": [["n", x], ["n", y]], "kind": "grid"})
+    for a in RANGE_ENDS:
+        for d in (-2, -1, 0, 1, 2, 3):
+            b = a + d
+            if V.INT_MIN <= b <= V.INT_MAX:
+                out.append({"op": "DotDot", "args": [["n", a], ["n", b]], "kind": "grid"})
+        for b in RANGE_ENDS:
+            if b < a:
+                out.append({"op": "DotDot", "args": [["n", a], ["n", b]], "kind": "grid"})
+    for x in MUL_OPERANDS:
+        out.append({"op": "Neg", "args": [["n", x]], "kind": "grid"})
+    return out
+
+
 def corpus():
     out = []
     d = os.path.join(vlib.VERIF, "corpus", "C03")
@@ -443,6 +552,7 @@ def run(ctx):
         for op in OPS:
             for i in range(per_op):
                 cases.append(gen_case(rng, op, twins=(i % 20 == 19)))
+        cases += boundary_grids()
     for i, c in enumerate(cases):
         c["id"] = i
     rc, res, err = vlib.run_jsonl("c03", [{k: c[k] for k in ("id", "op", "args", "fn", "subs") if k in c} for c in cases], timeout=3000)
